@@ -16,7 +16,7 @@ from ..transports import Link, RngDecider, ScriptDecider, SimBudgetExceeded, Sim
 PROP = "C12"
 RUNS = {"quick": 100000, "thorough": 3000000}
 BLOCK = {"quick": 500, "thorough": 5000}
-SHRINK_LISTS = ["chunks", "decisions", "reads"]
+SHRINK_LISTS = ["chunks", "items", "decisions", "reads"]
 RULE = (
     "one run = one seeded chunked body (1..12 chunks, sizes biased to 1,9/10,15/16,255/256,4095/4096; hex case and "
     "leading zeros varied; content dense in CR/LF/hex digits/terminator look-alikes; encoding chunked alone or with "
@@ -24,11 +24,14 @@ RULE = (
     "style, bufsize, boundaries aimed at size line / after data / inside CRLF) to the real SocketWrapper, read with "
     "a seeded read-size sequence. distinct = distinct (body, encoding, bufsize, recv partition, read sizes) digests; "
     "non-trivial = at least one recv boundary fell strictly inside a chunk (size line, data, after data, or between "
-    "CR and LF) and at least one byte was handed out."
+    "CR and LF) and at least one byte was handed out. 1 run in 5 additionally injects a TimeoutError / OSError between "
+    "two receives at an aimed boundary (the client reads again; the partial chunk must survive). 1 run in 10 is 'reader "
+    "mode': a well-formed mixed wire cut into chunks at seeded offsets, read by RTCMReader(socket, encoding=...), "
+    "delivered frames compared with the script."
 )
 ASSUMPTIONS = [
     "well-formed chunked bodies without chunk extensions or trailers (as the property defines them)",
-    "the peer sends the whole body then closes; no timeouts/errors in this property (they are C11's)",
+    "the peer sends the whole body then closes; in 4 of 5 runs no faults at all; in 1 of 5 a timeout/OS error between two receives, which by C11 must not lose buffered (here: partially received chunk) data",
     "reference decoder sim.wire.chunk_decode_reference and stdlib zlib are trusted",
 ]
 
@@ -89,12 +92,45 @@ def generate(master, index, tier):
             "seed": rng.getrandbits(48),
             "seg": rng.choice(("full", "byte", "small", "random", "random", "mixed")),
             "naims": rng.choice((0, 1, 2, 3, 6)),
+            # 1 run in 5: a timeout / OS error is injected *between* two receives, right at an aimed
+            # boundary (the client simply reads again): the partial chunk must survive it
+            "faults": index % 5 == 2,
         },
     }
+    if index % 10 == 9:
+        # reader mode: the NTRIP path.  A well-formed mixed wire, cut into chunks at seeded
+        # offsets (unrelated to frame boundaries), read by RTCMReader(socket, encoding=...)
+        from .. import readerworld as W
+
+        items = W.gen_wellformed_items(rng, rng.choice((1, 2, 4, 8)), p_filler=0.05)
+        total = sum(len(it[1]) // 2 for it in items)
+        ncut = rng.choice((0, 1, 2, 5, 12))
+        scn["items"] = items
+        scn["chunk_cuts"] = sorted({rng.randrange(1, total) for _ in range(ncut)}) if total > 1 else []
+        scn["chunk_fmt"] = [rng.choice("lum"), rng.choice((0, 0, 1))]
+        scn["opts"] = {"quitonerror": rng.choice((0, 1, 2)), "labelmsm": rng.choice((1, 2)), "parsed": rng.random() < 0.85}
+        scn["chunks"] = []
     return scn
 
 
+def _chunks_of(scn):
+    if "items" not in scn:
+        return scn["chunks"]
+    from .. import readerworld as W
+
+    data = W.wire_of(scn["items"])
+    case, lz = scn.get("chunk_fmt", ["l", 0])
+    out = []
+    p = 0
+    for c in [c for c in scn.get("chunk_cuts", []) if 0 < c < len(data)] + [len(data)]:
+        if c > p:
+            out.append([data[p:c].hex(), case, lz])
+            p = c
+    return out
+
+
 def _encode(scn):
+    scn = dict(scn, chunks=_chunks_of(scn))
     bodies = [bytes.fromhex(c[0]) for c in scn["chunks"]]
     comp = [wire.compress_chunk(b, scn["enc"], scn.get("level", 6)) for b in bodies]
     fmt = [(c[1], c[2]) for c in scn["chunks"]]
@@ -102,7 +138,7 @@ def _encode(scn):
     return bodies, encoded, spans
 
 
-def _aims(rng, spans, n, final):
+def _aims(rng, spans, n, final, faults=False):
     aims = []
     real = spans[:-1] if final and len(spans) > 1 else spans
     for _ in range(n):
@@ -121,7 +157,9 @@ def _aims(rng, spans, n, final):
         else:
             o = rng.randrange(d0, d1 + 1)
         aims.append([o, ["d", 0]])
-    aims.sort()
+        if faults:
+            aims.append([o, rng.choice((["t"], ["t"], ["e", "ConnectionResetError"], ["e", "InterruptedError"], ["e", "OSError"]))])
+    aims.sort(key=lambda a: a[0])
     return aims
 
 
@@ -164,14 +202,17 @@ def execute(scn):
     else:
         sch = scn["sched"]
         srng = R.random.Random(sch["seed"])
-        cfg = {"seg": sch["seg"], "aims": _aims(srng, spans, sch["naims"], scn.get("final", True))}
+        cfg = {"seg": sch["seg"], "aims": _aims(srng, spans, sch["naims"], scn.get("final", True), sch.get("faults", False))}
         decider = RngDecider(srng, cfg)
     budget = len(encoded) + 64
     link = Link(encoded, decider, budget)
+    link.budget_per_fault = 4
     handed = bytearray()
     viol = None
     reads = scn["reads"] or [1]
     nreads = 0
+    if "items" in scn:
+        return _execute_reader(scn, encoded, spans, link)
     try:
         sw = SocketWrapper(SimSocket(link), encoding=enc, bufsize=scn["bufsize"])
         i = 0
@@ -183,9 +224,10 @@ def execute(scn):
                 n = reads[i % len(reads)]
                 i += 1
             nreads += 1
-            if nreads > maxreads:
+            if nreads > maxreads + 4 * sum(link.fired.values()):
                 viol = violation(PROP, "no-progress", f"{nreads} client reads for {len(expected)} expected bytes")
                 break
+            f0 = link.fault_in_call
             data = sw.read(n)
             if len(data) > n:
                 viol = violation(PROP, "more-than-requested", f"read({n}) returned {len(data)} bytes")
@@ -205,7 +247,9 @@ def execute(scn):
                 break
             if len(data) == 0:
                 if not link.eof_seen:
-                    viol = violation(PROP, "empty-before-close", f"read({n}) returned nothing although the peer has not closed")
+                    if link.fault_in_call > f0:
+                        continue  # an injected timeout / OS error: the client reads again
+                    viol = violation(PROP, "empty-before-close", f"read({n}) returned nothing although the peer has not closed and no recv failed")
                     break
                 draining = True
                 if n == 1:
@@ -234,6 +278,8 @@ def execute(scn):
     explicit["decisions"] = link.taken
     counters = {"bclass:" + k: v for k, v in cls.items()}
     counters["enc:%d" % enc] = 1
+    for k, v in link.fired.items():
+        counters["fault:" + k.split(":")[0]] = counters.get("fault:" + k.split(":")[0], 0) + v
     counters["recv_calls"] = link.calls
     counters["client_reads"] = nreads
     counters["bytes_decoded"] = len(handed)
@@ -243,7 +289,70 @@ def execute(scn):
         "explicit": explicit,
         "stats": {
             "nontrivial": intra > 0 and len(handed) > 0,
-            "scn_d64": d64((scn["chunks"], enc, scn["bufsize"], bounds, reads, scn.get("final", True))),
+            "scn_d64": d64((scn["chunks"], enc, scn["bufsize"], bounds, link.taken if link.fired else None, reads, scn.get("final", True))),
+            "counters": counters,
+            "sim_seconds": 0.0,
+        },
+    }
+
+
+def _execute_reader(scn, encoded, spans, link):
+    """reader mode: RTCMReader over a chunk-encoded socket stream must return
+    exactly the frames the well-formed wire carries"""
+    from pyrtcm import RTCMReader
+
+    from .. import readerworld as W
+
+    items = scn["items"]
+    o = scn["opts"]
+    expected = W.must_deliver(items)
+    viol = None
+    events = []
+
+    class _St:  # what drive() needs to know
+        def pos(self):
+            return link.pos
+
+        def at_eof(self):
+            return link.eof_seen or link.pos >= link.end
+
+    try:
+        rd = RTCMReader(SimSocket(link), validate=1, quitonerror=o["quitonerror"], labelmsm=o["labelmsm"], parsed=o["parsed"], bufsize=scn["bufsize"], encoding=scn["enc"])
+        events = W.drive(rd, _St(), "iterate", 0)
+    except SimBudgetExceeded as e:
+        viol = violation(PROP, "non-termination", str(e))
+    delivered = [bytes(e[1]) for e in events if e[0] == "frame" and wire.frame_identity(bytes(e[1])) is not None]
+    lib = W.lib_exceptions()
+    for e in events:
+        if e[0] == "raise" and (not isinstance(e[1], lib) or o["quitonerror"] != 2):
+            viol = viol or violation(PROP, f"reader-exception:{type(e[1]).__name__}", f"reader over chunked socket raised {type(e[1]).__name__}: {e[1]}")
+    if viol is None and delivered != expected:
+        i = 0
+        while i < len(delivered) and i < len(expected) and delivered[i] == expected[i]:
+            i += 1
+        viol = violation(PROP, "reader-frames-differ", f"reader over the chunked socket stream returned {len(delivered)} frames, {len(expected)} in the decoded stream; first difference at {i}")
+    bounds = []
+    p = 0
+    for op, want, kind, k in link.log:
+        if kind == "d":
+            p += k
+            bounds.append(p)
+    cls = classify_boundaries(bounds, spans, len(encoded))
+    intra = sum(v for k, v in cls.items() if k not in ("chunk_end", "other"))
+    explicit = {k: v for k, v in scn.items() if k != "sched"}
+    explicit["decisions"] = link.taken
+    counters = {"bclass:" + k: v for k, v in cls.items()}
+    counters["reader_mode_runs"] = 1
+    counters["reader_mode_frames"] = len(delivered)
+    counters["enc:%d" % scn["enc"]] = 1
+    evd = [(e[0], bytes(e[1]) if e[0] == "frame" else (type(e[1]).__name__ if e[0] == "raise" else None)) for e in events]
+    return {
+        "digest": digest_of((link.log, evd, viol and viol["class"])),
+        "violation": viol,
+        "explicit": explicit,
+        "stats": {
+            "nontrivial": intra > 0 and len(delivered) > 0,
+            "scn_d64": d64((items, scn.get("chunk_cuts"), scn["enc"], scn["bufsize"], bounds, sorted(o.items()))),
             "counters": counters,
             "sim_seconds": 0.0,
         },
@@ -252,6 +361,18 @@ def execute(scn):
 
 def simplify(scn):
     """property specific shrinking candidates"""
+    if "items" in scn:
+        cuts = scn.get("chunk_cuts", [])
+        for i in range(len(cuts)):
+            cand = dict(scn)
+            cand["chunk_cuts"] = cuts[:i] + cuts[i + 1 :]
+            yield cand
+        for key, val in (("enc", 1), ("bufsize", 4096)):
+            if scn[key] != val:
+                cand = dict(scn)
+                cand[key] = val
+                yield cand
+        return
     # shorten chunk bodies
     for i, c in enumerate(scn["chunks"]):
         b = bytes.fromhex(c[0])
@@ -296,7 +417,8 @@ def sample_view(scn, out):
         "encoding": ex["enc"],
         "bufsize": ex["bufsize"],
         "final_zero_chunk": ex.get("final", True),
-        "chunks": [[c[0][:40] + ("..." if len(c[0]) > 40 else ""), len(c[0]) // 2, c[1], c[2]] for c in ex["chunks"][:6]],
+        "mode": "reader over chunked socket" if "items" in ex else "wrapper",
+        "chunks": [[c[0][:40] + ("..." if len(c[0]) > 40 else ""), len(c[0]) // 2, c[1], c[2]] for c in _chunks_of(ex)[:6]],
         "recv_results": [d[1] if d[0] == "d" else d[0] for d in ex["decisions"][:40]],
         "read_sizes": ex["reads"],
         "violation": out["violation"] and out["violation"]["class"],
